@@ -1,4 +1,5 @@
 import AslProofs.ArrayStep
+import AslProofs.ArrayQsortTotal
 /-! # C01: one step of the model is one step of the reference semantics (helper lemmas) -/
 namespace AslProofs.Arr
 open AslModel.Arr AslProofs.ArrSpec
@@ -715,16 +716,10 @@ end
 
 /-! ### all operations; observations; histories -/
 
-/-- the in-bounds behaviour of `quicksort` is a hypothesis of the refinement (see `quicksort_sorted_perm`):
-the quicksort of the sequence to be sorted never indexes outside it and ends within its fuel -/
-def SortOK [DecidableEq α] (E : Elem α) (sp : Sp α) : Op α → Prop
-  | .sort h desc => sp.occ h = true → (qsortList (if desc then fun a b => E.lt b a else E.lt) (sp.get h)).isSome = true
-  | _ => True
-
 theorem mod_NS_lt (h : Nat) : h % NS < NS := Nat.mod_lt _ (by unfold NS; omega)
 
 theorem step_sim [DecidableEq α] (E : Elem α) {st : St α} {sp : Sp α} (hg : Good st sp) (op : Op α)
-    (hgd : guard E st (normOp op) = false) (hs : SortOK E sp (normOp op)) : StepOK E st sp (normOp op) := by
+    (hirr : ∀ x, E.lt x x = false) (hgd : guard E st (normOp op) = false) : StepOK E st sp (normOp op) := by
   cases op with
   | new h => exact step_new E hg _ (mod_NS_lt h)
   | newn h n v => exact step_newn E hg _ n v (mod_NS_lt h)
@@ -743,8 +738,10 @@ theorem step_sim [DecidableEq α] (E : Elem α) {st : St α} {sp : Sp α} (hg : 
   | res h m => exact step_res E hg _ m hgd
   | clr h => exact step_clr E hg _
   | sort h d =>
-    refine step_sort E hg _ d (fun ho => hs ?_)
-    rw [hg.sim.occ_eq]; exact ho
+    refine step_sort E hg _ d (fun _ => qsortList_total _ ?_ _)
+    cases d
+    · exact hirr
+    · exact fun x => hirr x
   | slice t h i j => exact step_slice E hg _ _ i j (mod_NS_lt t)
   | clone t h => exact step_clone E hg _ _ (mod_NS_lt t)
   | dup h => exact step_dup E hg _ (mod_NS_lt h)
@@ -823,24 +820,25 @@ def specRun [DecidableEq α] (E : Elem α) : Sp α → List (Op α) → Sp α ×
     (rest.1, (r.2, r.1.observe) :: rest.2)
 
 /-- the hypothesis of the refinement: along the model run no operation increases the capacity of a block whose
-`rc > 1` (`guard`), and every `sort` stays inside its sequence -/
-def AllSafe [DecidableEq α] (E : Elem α) : St α → Sp α → List (Op α) → Prop
-  | _, _, [] => True
-  | st, sp, op :: ops =>
-    guard E st (normOp op) = false ∧ SortOK E sp (normOp op) ∧
+`rc > 1` (`guard`, the predicate the driver and the harness evaluate to skip exactly those operations) -/
+def AllSafe [DecidableEq α] (E : Elem α) : St α → List (Op α) → Prop
+  | _, [] => True
+  | st, op :: ops =>
+    guard E st (normOp op) = false ∧
       match step E st (normOp op) with
-      | some r => AllSafe E r.1 (specStep E sp (normOp op)).1 ops
+      | some r => AllSafe E r.1 ops
       | none => True
 
-theorem run_sim [DecidableEq α] (E : Elem α) : ∀ (ops : List (Op α)) {st : St α} {sp : Sp α}, Good st sp → AllSafe E st sp ops →
+theorem run_sim [DecidableEq α] (E : Elem α) (hirr : ∀ x, E.lt x x = false) :
+    ∀ (ops : List (Op α)) {st : St α} {sp : Sp α}, Good st sp → AllSafe E st ops →
     ∃ st', run E st ops = some (st', (specRun E sp ops).2) ∧ Good st' (specRun E sp ops).1 := by
   intro ops
   induction ops with
   | nil => intro st sp hg _; exact ⟨st, rfl, hg⟩
   | cons op ops ih =>
     intro st sp hg hsafe
-    obtain ⟨hgd, hso, hrest⟩ := hsafe
-    obtain ⟨st1, h1, hg1⟩ := step_sim E hg op hgd hso
+    obtain ⟨hgd, hrest⟩ := hsafe
+    obtain ⟨st1, h1, hg1⟩ := step_sim E hg op hirr hgd
     rw [h1] at hrest
     obtain ⟨st2, h2, hg2⟩ := ih hg1 hrest
     refine ⟨st2, ?_, hg2⟩
